@@ -10,6 +10,7 @@ package c16
 import (
 	"encoding/json"
 	"fmt"
+	"io/fs"
 	"os"
 	"path/filepath"
 	"runtime"
@@ -31,7 +32,9 @@ type opDef struct {
 	User  int
 	Kind  string // lock unlock unlock-id unlock-force locks locks-json locks-verify locks-verify-json locks-cached edit-new edit-old edit-r restore commit checkout merge push
 	File  string
-	Files []string // lock / unlock: the path list of the command (File is its first element)
+	Files []string // lock / unlock: the path list of the command, relative to the work-tree root (File is its first element)
+	Cwd   string   // directory (relative to the work-tree root) the command is invoked from; "" = the root
+	Typed []string // lock / unlock: the path arguments as typed relative to Cwd (nil: Files)
 	Refs  []string // push: remote branch names updated by ONE `git push` (empty: the user's own branch work-<user>)
 	Fault *faultDef
 	Page  bool
@@ -46,6 +49,28 @@ func mk(u int, kind, file string) opDef {
 		o.Files = []string{file}
 	}
 	return o
+}
+
+// mkc is lock / unlock (/ --force / --id) of ONE path invoked from the directory cwd of the work tree: typed is the argument as
+// written relative to cwd, file the same path relative to the work-tree root.
+func mkc(u int, kind, cwd, typed, file string) opDef {
+	o := mk(u, kind, file)
+	o.Cwd = cwd
+	if kind != "unlock-id" {
+		o.Typed = []string{typed}
+		o.Name = users[u] + ": " + kindText(kind, typed)
+	}
+	if cwd != "" {
+		o.Name = strings.Replace(o.Name, ": ", ": (in "+cwd+"/) ", 1)
+	}
+	return o
+}
+
+func (o opDef) args() []string {
+	if o.Typed != nil {
+		return o.Typed
+	}
+	return o.Files
 }
 
 // mkl is lock / unlock over a path list in one command.
@@ -81,6 +106,10 @@ func kindText(kind, file string) string {
 		return "edit " + file + " (content of an older, already pushed version)"
 	case "edit-dup":
 		return "overwrite " + file + " with a copy of r.txt as pushed (bytes that already exist on the remote under another name)"
+	case "edit-replace":
+		return "save " + file + " the way an editor does (new content written to a new file, mode 0644, renamed over the old one)"
+	case "clone":
+		return "git clone <remote> fresh (a new clone of the same user: filter-process installs the hooks, post-checkout runs with the null id)"
 	case "create":
 		return "create " + file + " (new, untracked file)"
 	case "add":
@@ -131,9 +160,26 @@ type node struct {
 }
 
 type initState struct {
-	Desc string
-	Node *node
-	RO   bool // lfs.setlockablereadonly in effect
+	Desc     string
+	Node     *node
+	RO       bool            // lfs.setlockablereadonly in effect
+	Lay      *layout         // nil: classic
+	Lockable map[string]bool // paths layout: which files carry the lockable attribute (per `git check-attr`); nil: classic (p,q,n,u)
+	PatClass string          // paths layout: how the lockable patterns are spelled (part of write-bit fingerprints); "" for classic
+}
+
+func (is *initState) layout() *layout {
+	if is.Lay == nil {
+		return layClassic
+	}
+	return is.Lay
+}
+
+func (is *initState) lockable(f string) bool {
+	if is.Lockable == nil {
+		return lockable(f)
+	}
+	return is.Lockable[f]
 }
 
 type partDef struct {
@@ -146,6 +192,8 @@ type partDef struct {
 	Sym      bool    // both users have the same alphabet: states are identified up to exchanging the users
 	ByRef    bool    // the fake server scopes locks by ref (fakelfs.LocksByRef)
 }
+
+func (p *partDef) lay() *layout { return p.Inits[0].layout() }
 
 func (p *partDef) key(o *obs) uint64 {
 	if p.Sym {
@@ -171,18 +219,37 @@ func (p *partDef) names(path []int) []string {
 }
 
 // enabled decides statically (from the model part of the node) whether an operation is offered in a state.
-func enabled(n *node, o opDef, maxDevs int) bool {
+func enabled(lay *layout, n *node, o opDef, maxDevs int) bool {
 	u := o.User
 	if o.deviates() && n.devs >= maxDevs {
 		return false
 	}
 	br := n.obs.branch(u)
+	fileIdx, wfiles := lay.idx, lay.Files
+	if lay != layClassic {
+		// paths layout: commands that cannot succeed (lock of a path already locked, unlock of a path without a lock) are
+		// the business of the classic scenarios
+		switch o.Kind {
+		case "lock":
+			return n.obs.tableAt(o.File) == nil
+		case "unlock", "unlock-force":
+			return n.obs.tableAt(o.File) != nil
+		case "clone":
+			// a new clone knows none of the user's locks: only demanded while the server holds none of his
+			for _, l := range n.obs.Table {
+				if l.Owner == users[u] {
+					return false
+				}
+			}
+			return n.depth == 0
+		}
+	}
 	switch o.Kind {
 	case "unlock-id":
 		return n.obs.tableAt(o.File) != nil
 	case "edit-dup":
 		return !n.dirty[u][fileIdx(o.File)] && !n.merged[u] && !n.qEdit[u] && br == "work"
-	case "edit-new", "edit-old", "edit-r":
+	case "edit-new", "edit-old", "edit-r", "edit-replace":
 		return !n.dirty[u][fileIdx(o.File)]
 	case "restore":
 		return n.dirty[u][fileIdx(o.File)] && !n.staged[u][fileIdx(o.File)]
@@ -332,16 +399,20 @@ func (e *envT) classifyUndetected(w *world, u int, pf pushFacts, paths []string,
 }
 
 func (e *envT) runOp(w *world, n *node, o opDef) (gitx.Res, string) {
-	dir := w.clone(o.User)
+	top := w.clone(o.User)
+	dir, in := top, ""
+	if o.Cwd != "" {
+		dir, in = filepath.Join(top, o.Cwd), "(in "+o.Cwd+"/) "
+	}
 	lfs := func(args ...string) (gitx.Res, string) {
-		return w.gx.LFS(dir, args...), "git lfs " + strings.Join(args, " ")
+		return w.gx.LFS(dir, args...), in + "git lfs " + strings.Join(args, " ")
 	}
 	git := func(args ...string) (gitx.Res, string) {
-		return w.gx.Git(dir, args...), "git " + strings.Join(args, " ")
+		return w.gx.Git(dir, args...), in + "git " + strings.Join(args, " ")
 	}
 	head := n.obs.ref(o.User, "refs/heads/"+n.obs.branch(o.User))
 	write := func(f, content string) (gitx.Res, string) {
-		p := filepath.Join(dir, f)
+		p := filepath.Join(top, f)
 		st, err := os.Stat(p)
 		if err != nil {
 			panic(vx.ToolError{Msg: "edit: " + err.Error()})
@@ -357,11 +428,11 @@ func (e *envT) runOp(w *world, n *node, o opDef) (gitx.Res, string) {
 	}
 	switch o.Kind {
 	case "lock":
-		return lfs(append([]string{"lock"}, o.Files...)...)
+		return lfs(append([]string{"lock"}, o.args()...)...)
 	case "unlock":
-		return lfs(append([]string{"unlock"}, o.Files...)...)
+		return lfs(append([]string{"unlock"}, o.args()...)...)
 	case "unlock-force":
-		return lfs(append([]string{"unlock", "--force"}, o.Files...)...)
+		return lfs(append([]string{"unlock", "--force"}, o.args()...)...)
 	case "unlock-id":
 		return lfs("unlock", "--id", n.obs.tableAt(o.File).ID)
 	case "locks":
@@ -380,6 +451,23 @@ func (e *envT) runOp(w *world, n *node, o opDef) (gitx.Res, string) {
 		return write(o.File, "p-old\n")
 	case "edit-dup":
 		return write(o.File, "r-base\n")
+	case "edit-replace":
+		p := filepath.Join(top, o.File)
+		tmp := p + ".editor-tmp"
+		if err := os.WriteFile(tmp, []byte("saved "+o.File+" on top of "+head+"\n"), 0644); err != nil {
+			panic(vx.ToolError{Msg: "edit-replace: " + err.Error()})
+		}
+		os.Chmod(tmp, 0644)
+		if err := os.Rename(tmp, p); err != nil {
+			panic(vx.ToolError{Msg: "edit-replace: " + err.Error()})
+		}
+		return gitx.Res{}, "(write new content to " + o.File + ".editor-tmp, mode 0644, rename it over " + o.File + ")"
+	case "clone":
+		fresh := filepath.Join(w.root, "fresh")
+		os.RemoveAll(fresh)
+		name := users[o.User]
+		r := w.gx.Git(w.root, "-c", "lfs.url="+w.userURL(name), "-c", "lfs."+w.lfsURL()+".access=basic", "clone", "-q", "--template="+e.tmpl, filepath.Join(w.root, "remote.git"), fresh)
+		return r, "git -c lfs.url=<url of " + name + "> clone -q <remote> fresh"
 	case "create":
 		if err := os.WriteFile(filepath.Join(dir, o.File), []byte("new file "+o.File+"\n"), 0644); err != nil {
 			panic(vx.ToolError{Msg: "create: " + err.Error()})
@@ -390,6 +478,9 @@ func (e *envT) runOp(w *world, n *node, o opDef) (gitx.Res, string) {
 	case "switch":
 		return git("checkout", "-q", "-b", o.File, "origin/"+o.File)
 	case "restore":
+		if o.Typed != nil {
+			return git("checkout", "--", o.Typed[0])
+		}
 		return git("checkout", "--", o.File)
 	case "commit":
 		return git("commit", "-q", "-a", "-m", "c")
@@ -433,8 +524,18 @@ type localLock struct {
 }
 
 // step applies one operation to the pre node inside world w and evaluates every oracle clause.
-func (e *envT) step(w *world, pre *node, ro bool, o opDef, where string) stepOut {
+func (e *envT) step(w *world, pre *node, is *initState, o opDef, where string) stepOut {
 	so := stepOut{counters: map[string]int64{}}
+	ro, lay := is.RO, is.layout()
+	w.lay = lay
+	fileIdx, wfiles, lockable := lay.idx, lay.Files, is.lockable
+	// fingerprint suffix of the write-bit clause in the paths layout: spelling of the lockable patterns + directory level of the file
+	wbClass := func(f string) string {
+		if is.PatClass == "" {
+			return ""
+		}
+		return ":" + is.PatClass + ":" + level(f)
+	}
 	captured := false
 	defer func() {
 		if !captured {
@@ -484,6 +585,14 @@ func (e *envT) step(w *world, pre *node, ro bool, o opDef, where string) stepOut
 	postHead := post.ref(u, "refs/heads/"+post.branch(u))
 
 	// model bookkeeping (dirty / merged) and hook scopes
+	fullScan := lay.FullScan // what `git checkout -- <file>` and a merge oblige git-lfs to recompute: every tracked lockable file
+	if fullScan == nil {
+		for _, f := range wfiles {
+			if lockable(f) {
+				fullScan = append(fullScan, f)
+			}
+		}
+	}
 	switch o.Kind {
 	case "edit-new":
 		nn.dirty[u][fileI] = true // the new content names the current tip, which no committed version can
@@ -498,7 +607,7 @@ func (e *envT) step(w *world, pre *node, ro bool, o opDef, where string) stepOut
 			return so
 		}
 		nn.dirty[u][fileI] = post.U[u].Content[fileI] != hc
-	case "create":
+	case "create", "edit-replace":
 		nn.dirty[u][fileI] = true
 	case "add":
 		if res.OK() {
@@ -507,7 +616,7 @@ func (e *envT) step(w *world, pre *node, ro bool, o opDef, where string) stepOut
 	case "restore":
 		if res.OK() {
 			nn.dirty[u][fileI] = false
-			scope = []string{fP, fQ, fN}
+			scope = fullScan
 		}
 	case "commit":
 		if res.OK() && postHead != preHead {
@@ -537,7 +646,7 @@ func (e *envT) step(w *world, pre *node, ro bool, o opDef, where string) stepOut
 	case "merge":
 		if res.OK() && postHead != preHead {
 			nn.merged[u] = true
-			scope = []string{fP, fQ, fN}
+			scope = fullScan
 		}
 	}
 
@@ -705,8 +814,17 @@ func (e *envT) step(w *world, pre *node, ro bool, o opDef, where string) stepOut
 			must[f] = held(f)
 		}
 	}
+	if o.Kind == "clone" {
+		e.judgeClone(w, &so, is, where)
+		if so.inconcl != "" {
+			return so
+		}
+	}
 	for i, f := range wfiles {
 		preW, postW := pre.obs.U[u].W[i], post.U[u].W[i]
+		if o.Kind == "edit-replace" && i == fileI {
+			continue // the user's editor, not git-lfs, gave the file its new mode
+		}
 		if !post.U[u].Exists[i] {
 			// n.dat comes and goes with the branch; nothing else may remove a file
 			if pre.obs.U[u].Exists[i] && o.Kind != "checkout" {
@@ -728,7 +846,7 @@ func (e *envT) step(w *world, pre *node, ro bool, o opDef, where string) stepOut
 				if !want {
 					state = "not-held-but-writable"
 				}
-				so.viol("C16:write-bit:"+fpKind+":"+state,
+				so.viol("C16:write-bit:"+fpKind+":"+state+wbClass(f),
 					ctx()+fmt.Sprintf("%s must be %s afterwards (own locks now: %v) but its mode is writable=%v", f, map[bool]string{true: "writable", false: "read-only"}[want], keys(expect), postW),
 					map[string]interface{}{"stderr": clip(res.Err, 400)})
 			}
@@ -739,11 +857,11 @@ func (e *envT) step(w *world, pre *node, ro bool, o opDef, where string) stepOut
 		}
 		switch {
 		case !lockable(f):
-			so.viol("C16:write-bit:"+fpKind+":non-lockable-file-changed", ctx()+fmt.Sprintf("write bit of the non-lockable %s changed %v -> %v", f, preW, postW), nil)
+			so.viol("C16:write-bit:"+fpKind+":non-lockable-file-changed"+wbClass(f), ctx()+fmt.Sprintf("write bit of the non-lockable %s changed %v -> %v", f, preW, postW), nil)
 		case !ro && !postW:
 			so.viol("C16:write-bit:"+fpKind+":made-read-only-although-feature-off", ctx()+fmt.Sprintf("%s was made read-only", f), nil)
 		case postW != held(f):
-			so.viol("C16:write-bit:"+fpKind+":changed-away-from-lock-state", ctx()+fmt.Sprintf("write bit of %s changed %v -> %v although %s holds %v", f, preW, postW, users[u], keys(expect)), nil)
+			so.viol("C16:write-bit:"+fpKind+":changed-away-from-lock-state"+wbClass(f), ctx()+fmt.Sprintf("write bit of %s changed %v -> %v although %s holds %v", f, preW, postW, users[u], keys(expect)), nil)
 		}
 	}
 	if !ro {
@@ -780,9 +898,12 @@ func (e *envT) step(w *world, pre *node, ro bool, o opDef, where string) stepOut
 			}
 			so.counters["clause3_unlock_of_modified_file_evaluations"]++
 			so.counters["clause3_unlock_of_"+fstate+"_file"]++
+			if o.Cwd != "" {
+				so.counters["clause3_unlock_invoked_from_subdirectory"]++
+			}
 			so.evals++
 			if post.tableAt(f) == nil || post.tableAt(f).ID != l.ID {
-				so.viol("C16:unlock-released-modified-file:"+o.Kind+":"+fstate+map[bool]string{true: ":fault", false: ""}[hits > 0],
+				so.viol("C16:unlock-released-modified-file:"+o.Kind+":"+fstate+map[bool]string{true: ":fault", false: ""}[hits > 0]+map[bool]string{true: ":invoked-from-subdirectory", false: ""}[o.Cwd != ""],
 					fmt.Sprintf("%s\nthen `%s` (exit %d) as %s while %s has uncommitted changes: the server released lock %s of %s (held by %s) although --force was not given\nstdout: %s\nstderr: %s",
 						where, cmd, res.Code, users[u], f, l.ID, l.Path, l.Owner, clip(res.Out, 300), clip(res.Err, 300)), nil)
 			}
@@ -926,6 +1047,22 @@ func (e *envT) step(w *world, pre *node, ro bool, o opDef, where string) stepOut
 		if len(o.Files) > 1 {
 			so.outcome += fmt.Sprintf(":paths%d:granted%d:released%d", len(o.Files), len(granted), len(released))
 		}
+		if is.PatClass != "" {
+			// paths layout: which directory levels were (re)computed, which of them to writable
+			var lv []string
+			lvSeen := map[string]bool{}
+			for f, want := range must {
+				if k := level(f) + map[bool]string{true: "+w", false: "-w"}[want]; !lvSeen[k] {
+					lvSeen[k] = true
+					lv = append(lv, k)
+				}
+			}
+			sort.Strings(lv)
+			so.outcome += ":" + is.PatClass + ":" + strings.Join(lv, ",")
+			if o.Cwd != "" {
+				so.outcome += ":from-subdir"
+			}
+		}
 	}
 	if hits > 0 {
 		so.outcome += fmt.Sprintf(":fault%d", o.Fault.Status)
@@ -935,13 +1072,71 @@ func (e *envT) step(w *world, pre *node, ro bool, o opDef, where string) stepOut
 	if o.Page {
 		so.outcome += ":paged"
 	}
-	so.nontriv = post.KeyA != pre.obs.KeyA || len(must) > 0 || hits > 0 || o.Kind == "push"
+	so.nontriv = post.KeyA != pre.obs.KeyA || len(must) > 0 || hits > 0 || o.Kind == "push" || o.Kind == "clone"
 	t3 := time.Now()
 	nn.snap = w.capture()
 	so.counters["t_us_capture"] = time.Since(t3).Microseconds()
 	so.counters["t_us_step_total"] = time.Since(t0).Microseconds()
 	captured = true
 	return so
+}
+
+// judgeClone: the write bits in a NEW clone made by the acting user (who holds no lock on the server): git's checkout runs
+// filter-process (p.dat is an LFS file), which installs the hooks; git then runs post-checkout with the null id = full scan.
+// Every lockable file must be read-only, every other file writable.  The clone is removed again (the world state is unchanged).
+func (e *envT) judgeClone(w *world, so *stepOut, is *initState, where string) {
+	fresh := filepath.Join(w.root, "fresh")
+	defer func() {
+		filepath.WalkDir(fresh, func(q string, de fs.DirEntry, err error) error {
+			if err == nil && de.IsDir() {
+				os.Chmod(q, 0755)
+			}
+			return nil
+		})
+		os.RemoveAll(fresh)
+	}()
+	if !so.res.OK() {
+		so.inconcl = "git clone failed: " + clip(so.res.String(), 300)
+		return
+	}
+	if _, err := os.Stat(filepath.Join(fresh, ".git", "hooks", "post-checkout")); err != nil {
+		so.inconcl = "the new clone has no post-checkout hook (filter-process did not install it)"
+		return
+	}
+	if !is.RO {
+		return
+	}
+	for _, f := range is.layout().Files {
+		st, err := os.Lstat(filepath.Join(fresh, f))
+		if err != nil {
+			so.inconcl = "new clone lacks " + f
+			return
+		}
+		wr := st.Mode().Perm()&0200 != 0
+		so.counters["clause2_write_bit_recomputations_checked"]++
+		so.counters["clause2_new_clone_files_checked"]++
+		so.evals++
+		cls := ""
+		if is.PatClass != "" {
+			cls = ":" + is.PatClass + ":" + level(f)
+		}
+		switch {
+		case is.lockable(f) && wr:
+			so.viol("C16:write-bit:clone:not-held-but-writable"+cls, fmt.Sprintf("%s\nthen `%s`: in the new clone the lockable file %s is writable although the user holds no lock (lockable files: %v)", where, so.cmd, f, lockableList(is)), nil)
+		case !is.lockable(f) && !wr:
+			so.viol("C16:write-bit:clone:non-lockable-file-changed"+cls, fmt.Sprintf("%s\nthen `%s`: in the new clone the non-lockable file %s is read-only", where, so.cmd, f), nil)
+		}
+	}
+}
+
+func lockableList(is *initState) []string {
+	var r []string
+	for _, f := range is.layout().Files {
+		if is.lockable(f) {
+			r = append(r, f)
+		}
+	}
+	return r
 }
 
 func keys(m map[string]cacheEnt) []string {
@@ -1095,6 +1290,7 @@ func (e *envT) buildBase(w *world) snap {
 
 // variant derives an initial state from the base by setting the two configuration dimensions in both clones.
 func (e *envT) variant(w *world, base snap, verify string, ro bool) initState {
+	w.lay = layClassic
 	w.restore(base)
 	for u := range users {
 		dir := w.clone(u)
@@ -1391,7 +1587,7 @@ func (e *envT) bfs(p *partDef, deadline time.Time) (*vx.Stats, bfsInfo) {
 								w.invalidate()
 							}
 						}()
-						so := e.step(w, n, p.Inits[n.init].RO, p.Ops[t.oi], p.where(n.init, n.path))
+						so := e.step(w, n, &p.Inits[n.init], p.Ops[t.oi], p.where(n.init, n.path))
 						rmu.Lock()
 						if results[t.ni] == nil {
 							results[t.ni] = map[int]done{}
@@ -1405,7 +1601,7 @@ func (e *envT) bfs(p *partDef, deadline time.Time) (*vx.Stats, bfsInfo) {
 		ntasks := 0
 		for ni, n := range frontier {
 			for oi, o := range p.Ops {
-				if enabled(n, o, p.MaxDevs) {
+				if enabled(p.lay(), n, o, p.MaxDevs) {
 					ch <- task{ni, oi}
 					ntasks++
 				}
@@ -1418,7 +1614,7 @@ func (e *envT) bfs(p *partDef, deadline time.Time) (*vx.Stats, bfsInfo) {
 		newStates := 0
 		for ni, n := range frontier {
 			for oi, o := range p.Ops {
-				if !enabled(n, o, p.MaxDevs) {
+				if !enabled(p.lay(), n, o, p.MaxDevs) {
 					continue
 				}
 				d, ok := results[ni][oi]
@@ -1496,11 +1692,11 @@ func (e *envT) replayRun(p *partDef) vx.RunFunc {
 				break
 			}
 			o := p.Ops[c-1]
-			if !enabled(&cur, o, p.MaxDevs) {
+			if !enabled(p.lay(), &cur, o, p.MaxDevs) {
 				agg.ToolErr = fmt.Sprintf("replay: operation %q is not enabled after %v", o.Name, p.names(path))
 				break
 			}
-			so := e.step(w, &cur, p.Inits[i].RO, o, p.where(i, path))
+			so := e.step(w, &cur, &p.Inits[i], o, p.where(i, path))
 			path = append(path, c-1)
 			r := toResult(p, &cur, path, &so)
 			agg.Outcome = r.Outcome
@@ -1534,6 +1730,28 @@ func TestVerifC16(t *testing.T) {
 	w0 := <-e.pool
 	// world construction with the real tools; a tool timeout here (overloaded machine) is retried, never an observation
 	gitx.CmdTimeout = 150 * time.Second
+	// the base worlds of the paths scenarios (one per spelling of the lockable patterns) are built concurrently in other workers' worlds
+	pathsNone := make([]initState, len(patVariants))
+	pathsErr := make([]interface{}, len(patVariants))
+	var pwg sync.WaitGroup
+	for i := range patVariants {
+		pwg.Add(1)
+		go func(i int) {
+			defer pwg.Done()
+			w := <-e.pool
+			defer func() { e.pool <- w }()
+			for attempt := 1; attempt <= 3; attempt++ {
+				func() {
+					defer func() { pathsErr[i] = recover() }()
+					pathsNone[i] = e.buildPaths(w, patVariants[i])
+				}()
+				if pathsErr[i] == nil {
+					break
+				}
+			}
+			w.invalidate()
+		}(i)
+	}
 	var base snap
 	for attempt := 1; ; attempt++ {
 		var failure interface{}
@@ -1552,6 +1770,13 @@ func TestVerifC16(t *testing.T) {
 		w0.invalidate()
 		os.RemoveAll(filepath.Join(w0.root, "seed"))
 		w0.restore(snap{files: map[string]*ent{}, objs: map[string][]byte{}})
+	}
+	pwg.Wait()
+	for i, err := range pathsErr {
+		if err != nil {
+			fmt.Printf("TOOL-ERROR property=C16 cannot construct the base world of paths variant %s: %v\n", patVariants[i].Class, err)
+			os.Exit(2)
+		}
 	}
 	gitx.CmdTimeout = 60 * time.Second
 	mkInit := func(verify string, ro bool) initState { return e.variant(w0, base, verify, ro) }
@@ -1572,7 +1797,7 @@ func TestVerifC16(t *testing.T) {
 		w.byRef = false
 		cur := from.Node
 		for _, o := range ops {
-			so := e.step(w, cur, from.RO, o, "constructing initial state")
+			so := e.step(w, cur, &from, o, "constructing initial state")
 			if so.node == nil || !so.res.OK() {
 				panic(vx.ToolError{Msg: fmt.Sprintf("cannot construct initial state %q: `%s` failed: %s %s", desc, so.cmd, so.inconcl, so.res)})
 			}
@@ -1580,7 +1805,9 @@ func TestVerifC16(t *testing.T) {
 		}
 		n := *cur
 		n.depth, n.path, n.devs = 0, nil, 0
-		return initState{Desc: strings.Replace(from.Desc, "no locks", desc, 1), Node: &n, RO: from.RO}
+		is := from
+		is.Desc, is.Node = strings.Replace(from.Desc, "no locks", desc, 1), &n
+		return is
 	}
 	lk := func(u int, f string) opDef { return mk(u, "lock", f) }
 	iP1Q2 := derive(iTrueOn, "p.dat locked by u1, q.dat locked by u2", lk(0, fP), lk(1, fQ))
@@ -1602,9 +1829,24 @@ func TestVerifC16(t *testing.T) {
 		iPQ2 = derive(iTrueOn, "p.dat and q.dat locked by u2", lk(1, fP), lk(1, fQ))
 	}
 
+	// paths scenarios: per pattern spelling {no locks; u1 holds x.dat (root) and assets/q.dat: lock state differs per directory
+	// level and inside the same-base-name pair; thorough: every .dat file writable although none is held (u1 locked them, u2 broke
+	// the locks, u1 ran locks --verify)}
+	var pathsInits, pathsSkew []initState
+	for _, is := range pathsNone {
+		pathsInits = append(pathsInits, is)
+		pathsInits = append(pathsInits, derive(is, "u1 holds x.dat and assets/q.dat (locked from inside assets/)", mkc(0, "lock", "", fX, fX), mkc(0, "lock", "assets", "q.dat", fAQ)))
+		if e.thorough {
+			pathsSkew = append(pathsSkew, derive(is, "no locks, but x.dat assets/x.dat assets/q.dat assets/deep/r.dat are writable (u1 locked them, u2 broke the locks with unlock --force, u1 ran locks --verify)",
+				mkl(0, "lock", fX, fAX, fAQ, fDR), mkl(1, "unlock-force", fX, fAX, fAQ, fDR), mk(0, "locks-verify", "")))
+		}
+	}
+
 	var parts []partDef
 	if e.thorough {
 		parts = []partDef{
+			{Name: "paths", Inits: pathsInits, Ops: pathsAlphabet(0, false), MaxDepth: 3, MaxDevs: 0, Share: 14},
+			{Name: "paths-wide", Inits: append(append([]initState(nil), pathsInits...), pathsSkew...), Ops: pathsAlphabet(0, true), MaxDepth: 2, MaxDevs: 0, Share: 14},
 			{Name: "unlock-states", Inits: []initState{iTrueOn}, Ops: unlockStatesAlphabet(0, true), MaxDepth: 5, MaxDevs: 0, Share: 3},
 			{Name: "push-refs", Inits: []initState{iRelAp, iRelBp, iRelBq, iTrueOn}, Ops: pushRefsAlphabet(1, true), MaxDepth: 4, MaxDevs: 1, Share: 5, ByRef: true},
 			{Name: "locks-readonly-off", Inits: []initState{iTrueOff}, Ops: locksAlphabet(false, false), MaxDepth: 3, MaxDevs: 0, Share: 3, Sym: true},
@@ -1619,6 +1861,7 @@ func TestVerifC16(t *testing.T) {
 		}
 	} else {
 		parts = []partDef{
+			{Name: "paths", Inits: pathsInits, Ops: pathsAlphabet(0, false), MaxDepth: 2, MaxDevs: 0, Share: 22},
 			{Name: "unlock-states", Inits: []initState{iTrueOn}, Ops: unlockStatesAlphabet(0, false), MaxDepth: 4, MaxDevs: 0, Share: 6},
 			{Name: "push-refs", Inits: []initState{iRelAp, iRelBp, iRelBq}, Ops: pushRefsAlphabet(1, false), MaxDepth: 3, MaxDevs: 1, Share: 6, ByRef: true},
 			{Name: "locks-readonly-off", Inits: []initState{iTrueOff}, Ops: locksAlphabet(false, false), MaxDepth: 2, MaxDevs: 0, Share: 4, Sym: true},
@@ -1638,12 +1881,19 @@ func TestVerifC16(t *testing.T) {
 		"of the acting user == locks granted to him and not released (reset to the server's answer by his successful `locks --verify`), (2a) write bit recomputed where lock/unlock/post-checkout/post-commit/" +
 		"post-merge must recompute it and never moved away from the lock state elsewhere, non-lockable files and the other clone untouched, (3) unlock/unlock --id of a modified file keeps the server lock, " +
 		"(1) with lfs.<url>.locksverify=true a push whose new commits (not reachable from a remote-tracking ref; merges by combined diff) add/modify a path locked by the other user is rejected, otherwise accepted. " +
+		"Scenario paths (PATH/PATTERN dimension of clause 2a, same step function and oracle): files p.dat (LFS), x.dat, assets/q.dat, assets/x.dat (same base name as x.dat), assets/deep/r.dat, assets/t.txt; local branch side changes " +
+		"x.dat, assets/x.dat, assets/deep/r.dat, assets/t.txt (one per directory level + the control); the lockable patterns are spelled {`*.dat`; `assets/*.dat`; `/x.dat`+`/assets/q.dat`; `assets/**/*.dat`; `*.dat` in a nested " +
+		"assets/.gitattributes} and the set of lockable files is git's own answer (`git check-attr lockable`); initial lock tables {none; u1 holds x.dat and assets/q.dat}; one acting user: lock / unlock / unlock --id / " +
+		"unlock --force of files at every level typed from the work-tree root or from inside assets/ (q.dat, x.dat, [thorough] ../x.dat, deep/r.dat), editor-style save of assets/q.dat (new file, mode 0644), commit (post-commit), " +
+		"branch switch (post-checkout, incremental), `git checkout -- assets/q.dat` (post-checkout, full scan), `git merge side` (post-merge, full scan), a new clone made by a user without locks (filter-process installs the hooks, " +
+		"git runs post-checkout with the null id: full scan); after every transition the write bit of EVERY lockable file in the hook's / command's scope must equal 'the acting user holds its lock', non-lockable files keep their mode. " +
 		"A transition is non-trivial when it changes the canonical state, obliges a write-bit recomputation, meets an injected fault or is a push; distinct = distinct (canonical state, operation)."
 	c.Assumptions = []string{
 		"Knowledge model (DESIGN.md C16): the locks a user 'holds' for clause 2 are those the server granted to his own successful `lock`, minus those released by his own successful `unlock`, reset to the server's list of his own locks by his successful, complete `locks --verify`; a release forced by the other user is not known to him until then. After a reported violation the model is re-synchronised to the observed cache so that one defect yields one fingerprint.",
 		"Write bits are demanded only where git-lfs is documented to (re)compute them: the locked file after `lock`; the unlocked file after `unlock` (lockable, lfs.setlockablereadonly on); the files differing between the two commits after a branch checkout; all tracked lockable files after `git checkout -- <file>` and after a merge; the lockable files changed by the commit after `git commit`. Elsewhere only a change of a write bit away from the lock state is flagged. With lfs.setlockablereadonly=false nothing may be made read-only.",
 		"'Rejected' = git push exits non-zero and the remote ref is unchanged; 'accepted' = exit 0 and the remote ref equals the local tip. 'New commits' = commits not reachable from any remote-tracking ref of the pushing clone; a path is added/modified by a non-merge commit per `git log --name-status`, by a merge commit per its combined diff (differs from every parent). Deleted paths are not demanded.",
 		"With verification enabled and a faulted locks/verify answer (403, 404, 500, 501) only the 'must be rejected' half of clause 1 is demanded (docs/man/git-lfs-config: `true` halts the push on any server issue); acceptance is demanded only under nominal or paginated answers.",
+		"Paths scenario: a file is 'lockable' when `git check-attr lockable -- <path>` reports the attribute as set (gitattributes semantics: a slash-less pattern matches the base name at any depth below its .gitattributes file, a pattern with a slash is anchored there, `**/` matches zero or more directories). A new clone is judged only while the server holds no lock of the cloning user (the new clone's cache is empty; every lockable file must then be read-only). The editor-style save itself (rename of a new 0644 file over the old one) is the user's action and is not judged; the next hook that has the file in scope must bring the bit back in line.",
 		"The harness runs as root: editing a read-only file in place succeeds and keeps its mode, which stands for a user who edits a file he has not locked.",
 		"Trusted: git 2.39.5 plumbing (log/diff-tree/rev-list/rev-parse/config) for the reference facts, the gob decoder of tools/kv for reading lockcache.db into the state key (cross-checked against `locks --local --json` after every lock/unlock/verify), lib/fakelfs.",
 	}
